@@ -1239,10 +1239,37 @@ func c18Replay(cfg Config, env *c18Env, chk *c18Checker) {
 			}
 		}
 	}
-	run, err := env.run(s)
-	if err != nil {
-		chk.r.Violate(Violation{Kind: "correspondence", Key: "run-failed", Detail: err.Error()})
-		return
+	var run *c18Run
+	if s.Fault.Kind == "kill" || s.Fault.Kind == "err" {
+		// re-derive the injection point from a fresh fault-free run and insist on hitting the same call index
+		base, err := env.run(c18Scenario{File: s.File, Cmd: s.Cmd, Fault: c18Fault{Kind: "none"}})
+		if err == nil {
+			for _, ft := range c18FaultsOf(base) {
+				if ft.Kind == s.Fault.Kind && ft.Index == s.Fault.Index && ft.Errno == s.Fault.Errno {
+					s.Fault = ft
+				}
+			}
+			for attempt := 0; attempt < 8; attempt++ {
+				sc := s
+				if attempt%2 == 1 {
+					sc.Fault.When = sc.Fault.WhenAlt
+				}
+				if rr, err := env.run(sc); err == nil {
+					run = rr
+					if c18Hit(base, rr, sc.Fault) {
+						break
+					}
+				}
+			}
+		}
+	}
+	if run == nil {
+		var err error
+		run, err = env.run(s)
+		if err != nil {
+			chk.r.Violate(Violation{Kind: "correspondence", Key: "run-failed", Detail: err.Error()})
+			return
+		}
 	}
 	chk.check(s, c18OracleFor(s.File), run)
 }
